@@ -549,7 +549,8 @@ def true_angular(x, y):
 
 @numba.vectorize(fastmath=True)
 def true_angular_from_alt_cosine(d):
-    return 1.0 - (np.arccos(pow(2.0, -d)) / np.pi)
+    # a surrogate value rounded slightly below zero must not yield arccos(>1)
+    return 1.0 - (np.arccos(min(1.0, pow(2.0, -d))) / np.pi)
 
 
 @numba.njit(fastmath=True)
@@ -659,7 +660,8 @@ def alternative_hellinger(x, y):
 
 @numba.vectorize(fastmath=True)
 def correct_alternative_hellinger(d):
-    return np.sqrt(1.0 - pow(2.0, -d))
+    # a surrogate value rounded slightly below zero must not yield sqrt(negative)
+    return np.sqrt(max(0.0, 1.0 - pow(2.0, -d)))
 
 
 @numba.njit()
